@@ -82,10 +82,12 @@ func (g *gen) oneBody(in reqIn) {
 			r.Fail(hk.Failure{Sig: "rerun:" + in.Rerun + ":not-resent:" + in.Kind, What: "the request was not sent twice: " + s.Err, Input: in})
 			return
 		}
+		ups := splitUploads(in, s.Ups)
 		for i, a := range []*arrived{s.First, s.Arrived} {
 			n0 := len(r.Failures)
 			one := in
-			g.judge(one, sentReq{Err: s.Err, Arrived: a}, fmt.Sprintf("|attempt%d", i+1))
+			// the upload callbacks of this attempt: every attempt uploads the files anew, from zero
+			g.judge(one, sentReq{Err: s.Err, Arrived: a, Ups: ups[i]}, fmt.Sprintf("|attempt%d", i+1))
 			for j := n0; j < len(r.Failures); j++ {
 				r.Failures[j].Sig = fmt.Sprintf("rerun:%s:attempt%d:%s", in.Rerun, i+1, r.Failures[j].Sig)
 			}
@@ -327,4 +329,33 @@ func reorderFiles(in reqIn, parts []seenPart) reqIn {
 	}
 	in.Files = out
 	return in
+}
+
+// splitUploads: the upload reports of the first and of the second attempt.  A retry is told apart by
+// Request.RetryAttempt; a digest re-send (same RetryAttempt) starts where a file that has already
+// reported is reported again with a count that is not larger.
+func splitUploads(in reqIn, ups []upInfo) [2][]upInfo {
+	var out [2][]upInfo
+	if in.Rerun == "retry" {
+		for _, u := range ups {
+			k := u.Attempt
+			if k > 1 {
+				k = 1
+			}
+			out[k] = append(out[k], u)
+		}
+		return out
+	}
+	last := map[string]int64{}
+	cut := len(ups)
+	for i, u := range ups {
+		k := u.Param + "\x00" + u.Name
+		if v, ok := last[k]; ok && u.Up <= v {
+			cut = i
+			break
+		}
+		last[k] = u.Up
+	}
+	out[0], out[1] = ups[:cut], ups[cut:]
+	return out
 }
